@@ -86,10 +86,11 @@ func reference(proto string, base, overrides []string) model {
 				m.reject = true
 				continue
 			}
-			if ip.Zone() != "" || ip.Is4In6() {
-				return model{dontCare: "zone / v4-mapped address " + host}
+			if ip.Zone() != "" {
+				return model{dontCare: "zoned address " + host}
 			}
-			if ip.Is4() {
+			// an IPv4-mapped IPv6 literal (::ffff:a.b.c.d) denotes an IPv4 address: the "6" networks cannot bind it
+			if ip.Is4() || ip.Is4In6() {
 				m.out = append(m.out, want{a, host, proto + "4"})
 			} else {
 				m.out = append(m.out, want{a, host, proto + "6"})
@@ -124,12 +125,15 @@ func genAddr(rng *rand.Rand, pBad int) (string, string) {
 		return v4[rng.Intn(len(v4))] + ":" + p, "v4"
 	case x < pBad+60:
 		return "[" + v6[rng.Intn(len(v6))] + "]:" + p, "v6"
+	case x < pBad+64:
+		// IPv4-mapped IPv6 literals, in dotted and in hexadecimal notation
+		return "[" + []string{"::ffff:1.2.3.4", "::ffff:10.0.0.1", "::ffff:0.0.0.0", "::ffff:7f00:1", "0:0:0:0:0:ffff:192.168.1.1", "::FFFF:8.8.8.8"}[rng.Intn(6)] + "]:" + p, "v4mapped"
 	case x < pBad+72:
 		return ":" + p, "wildcard"
 	case x < pBad+84:
 		return flyHost + ":" + p, "fly"
 	case x < pBad+87:
-		return []string{"missing-port", "[::1]", "1.2.3.4", "[fe80::1%eth0]:" + p, "[::ffff:1.2.3.4]:" + p, "::1:" + p}[rng.Intn(6)], "odd"
+		return []string{"missing-port", "[::1]", "1.2.3.4", "[fe80::1%eth0]:" + p, "[fe80::2%1]:" + p, "::1:" + p}[rng.Intn(6)], "odd"
 	}
 	return v4[rng.Intn(len(v4))] + ":" + p, "v4"
 }
@@ -260,6 +264,6 @@ func main() {
 	r.Count("expected_rejections", rejected)
 	r.Count("expected_acceptances", accepted)
 	r.Assume("blanks are space, tab, CR, LF; duplicates are equal strings after trimming (textually different spellings of one address are not generated)")
-	r.Assume("don't care (not asserted): no address at all, malformed host:port, zoned and IPv4-mapped IPv6 hosts; a wildcard host (':port') is accepted with the family-less network, as the package's API documents")
+	r.Assume("don't care (not asserted): no address at all, malformed host:port, zoned IPv6 hosts; a wildcard host (':port') is accepted with the family-less network, as the package's API documents")
 	r.Finish()
 }
